@@ -4,14 +4,13 @@ package main
 // the real handlers, and the scripted HTTP client for harness-written documents.
 
 import (
-	"bytes"
-	"context"
+		"context"
 	"errors"
 	"fmt"
-	"io"
 	"net/http"
-	"net/http/httptest"
+	"sync"
 	"time"
+	_ "time/tzdata"
 
 	"github.com/emersion/go-ical"
 	"github.com/emersion/go-vcard"
@@ -22,11 +21,31 @@ import (
 
 var errPanic = errors.New("panic")
 
+// zones a backend may hold its instants in: fixed offsets and named zones with daylight
+// saving changes (time/tzdata is linked in, so they exist whatever the machine has)
+var zoneNames = []string{"Europe/Berlin", "America/New_York", "Australia/Lord_Howe", "Asia/Kathmandu", "Pacific/Apia"}
+var namedZones = func() []*time.Location {
+	var out []*time.Location
+	for _, n := range zoneNames {
+		if l, err := time.LoadLocation(n); err == nil {
+			out = append(out, l)
+		}
+	}
+	return out
+}()
+
 func mkTime(sec, nsec int64) time.Time {
 	if sec == zeroSec && nsec == 0 {
 		return time.Time{}
 	}
-	return time.Unix(sec, nsec).In(time.FixedZone("x", 3600*int(sec%5-2)))
+	k := int(((sec % 11) + 11) % 11)
+	if k < len(namedZones) {
+		return time.Unix(sec, nsec).In(namedZones[k])
+	}
+	if k == 10 {
+		return time.Unix(sec, nsec).UTC()
+	}
+	return time.Unix(sec, nsec).In(time.FixedZone("x", 1800*(k-7)))
 }
 
 // buildErr makes the error value an Outcome describes.
@@ -64,6 +83,57 @@ type world struct {
 	// afterwards at the request path and at the path the backend answered
 	stateful bool
 	stored   map[string]*Obj
+	// what the double handed to the server and received from it, kept to see whether it is
+	// modified later (arguments unchanged / aliasing of results)
+	mu      sync.Mutex
+	issued  []issuedVal
+	putCal  *ical.Calendar
+	putCard vcard.Card
+}
+
+type issuedVal struct {
+	cal  *ical.Calendar
+	card vcard.Card
+	k    string
+}
+
+func (w *world) issue(cal *ical.Calendar, card vcard.Card, k string) {
+	w.mu.Lock()
+	w.issued = append(w.issued, issuedVal{cal, card, k})
+	w.mu.Unlock()
+}
+
+// issuedChanged: a value the backend returned to the server no longer is what it was.
+func (w *world) issuedChanged() bool {
+	w.mu.Lock()
+	defer w.mu.Unlock()
+	for _, v := range w.issued {
+		if v.cal != nil && calK(v.cal) != v.k {
+			return true
+		}
+		if v.card != nil && cardK(v.card) != v.k {
+			return true
+		}
+	}
+	return false
+}
+
+// configure makes the double answer as nw says, keeping its identity (the handler of a
+// history holds a pointer to it) and what it remembers.
+func (w *world) configure(nw *world) {
+	w.mu.Lock()
+	defer w.mu.Unlock()
+	w.card, w.principal, w.home, w.colls, w.objs, w.byPath, w.putRet = nw.card, nw.principal, nw.home, nw.colls, nw.objs, nw.byPath, nw.putRet
+	w.getCalls, w.putPath, w.putData, w.putCalled = nil, "", "", false
+	if nw.stateful {
+		w.stateful = true
+	}
+	for k, v := range nw.stored {
+		if w.stored == nil {
+			w.stored = map[string]*Obj{}
+		}
+		w.stored[k] = v
+	}
 }
 
 // remember is called by the Put methods of a stateful double.
@@ -83,7 +153,9 @@ func (w *world) remember(reqPath, data string) {
 }
 
 func (w *world) get(p string) (*Obj, error) {
+	w.mu.Lock()
 	w.getCalls = append(w.getCalls, p)
+	w.mu.Unlock()
 	if so, ok := w.stored[p]; ok {
 		return so, nil
 	}
@@ -141,12 +213,15 @@ func (b calBackend) GetCalendarObject(ctx context.Context, p string, req *caldav
 		return nil, err
 	}
 	co := calObj(o)
+	b.w.issue(co.Data, nil, o.Data)
 	return &co, nil
 }
 func (b calBackend) list() []caldav.CalendarObject {
 	var out []caldav.CalendarObject
 	for _, o := range b.w.objs {
-		out = append(out, calObj(o))
+		co := calObj(o)
+		b.w.issue(co.Data, nil, o.Data)
+		out = append(out, co)
 	}
 	return out
 }
@@ -157,7 +232,7 @@ func (b calBackend) QueryCalendarObjects(ctx context.Context, p string, q *calda
 	return b.list(), nil
 }
 func (b calBackend) PutCalendarObject(ctx context.Context, p string, c *ical.Calendar, opts *caldav.PutCalendarObjectOptions) (*caldav.CalendarObject, error) {
-	b.w.putCalled, b.w.putPath, b.w.putData = true, p, calK(c)
+	b.w.putCalled, b.w.putPath, b.w.putData, b.w.putCal = true, p, calK(c), c
 	b.w.remember(p, b.w.putData)
 	if b.w.putRet.Kind != "found" {
 		return nil, buildErr(false, b.w.putRet)
@@ -204,12 +279,15 @@ func (b cardBackend) GetAddressObject(ctx context.Context, p string, req *cardda
 		return nil, err
 	}
 	ao := cardObj(o)
+	b.w.issue(nil, ao.Card, o.Data)
 	return &ao, nil
 }
 func (b cardBackend) list() []carddav.AddressObject {
 	var out []carddav.AddressObject
 	for _, o := range b.w.objs {
-		out = append(out, cardObj(o))
+		ao := cardObj(o)
+		b.w.issue(nil, ao.Card, o.Data)
+		out = append(out, ao)
 	}
 	return out
 }
@@ -220,7 +298,7 @@ func (b cardBackend) QueryAddressObjects(ctx context.Context, p string, q *cardd
 	return b.list(), nil
 }
 func (b cardBackend) PutAddressObject(ctx context.Context, p string, c vcard.Card, opts *carddav.PutAddressObjectOptions) (*carddav.AddressObject, error) {
-	b.w.putCalled, b.w.putPath, b.w.putData = true, p, cardK(c)
+	b.w.putCalled, b.w.putPath, b.w.putData, b.w.putCard = true, p, cardK(c), c
 	b.w.remember(p, b.w.putData)
 	if b.w.putRet.Kind != "found" {
 		return nil, buildErr(true, b.w.putRet)
@@ -239,45 +317,3 @@ func (w *world) handler() http.Handler {
 	return &caldav.Handler{Backend: calBackend{w}}
 }
 
-// inproc hands each client request to the handler as a server would receive it
-// (request target re-parsed from its wire form) and keeps the last response body.
-type inproc struct {
-	h        http.Handler
-	lastBody []byte
-	lastCode int
-}
-
-func (t *inproc) Do(req *http.Request) (*http.Response, error) {
-	var body io.Reader = http.NoBody
-	if req.Body != nil {
-		data, err := io.ReadAll(req.Body)
-		if err != nil {
-			return nil, err
-		}
-		body = bytes.NewReader(data)
-	}
-	sreq := httptest.NewRequest(req.Method, req.URL.String(), body)
-	for k, v := range req.Header {
-		sreq.Header[k] = v
-	}
-	rec := httptest.NewRecorder()
-	t.h.ServeHTTP(rec, sreq.WithContext(req.Context()))
-	resp := rec.Result()
-	resp.Request = req
-	data, _ := io.ReadAll(resp.Body)
-	t.lastBody, t.lastCode = data, resp.StatusCode
-	resp.Body = io.NopCloser(bytes.NewReader(data))
-	return resp, nil
-}
-
-// scripted answers every request with one prepared 207 body.
-type scripted struct{ body []byte }
-
-func (s scripted) Do(req *http.Request) (*http.Response, error) {
-	return &http.Response{
-		Status: "207 Multi-Status", StatusCode: 207, Proto: "HTTP/1.1", ProtoMajor: 1, ProtoMinor: 1,
-		Header:  http.Header{"Content-Type": []string{`application/xml; charset="utf-8"`}},
-		Body:    io.NopCloser(bytes.NewReader(s.body)),
-		Request: req,
-	}, nil
-}
